@@ -77,7 +77,14 @@ set_uri(int k)
     props.uri.is_ref = 1;
 }
 
+#if MODE == 143
+#define FR_MAX 2
+#define FR_IMG 9 /* image bytes 0..9: every residue modulo 8 */
+#define FR_SLOT (sizeof(struct VideoFrame) + 16)
+static uint8_t packet[FR_MAX * FR_SLOT] __attribute__((aligned(8)));
+#else
 static uint8_t packet[(PMAX > (int)sizeof(struct VideoFrame)) ? PMAX : sizeof(struct VideoFrame)] __attribute__((aligned(8)));
+#endif
 
 /* ---- write observer -------------------------------------------------------------------- */
 static int obs_on, obs_file, obs_bad;
@@ -137,6 +144,50 @@ main(void)
     obs_on = 0;
     storage_close(dev);
     VASSERT(fs_bad_fd_ops == 0 && fs_open_count() == 0, "C16: descriptor misuse at close");
+    WITNESS_END();
+#elif MODE == 143
+    /* append step on a packet of WHOLE FRAMES (1..FR_MAX frames, image bytes 0..FR_IMG each, the
+     * size field rounded up to 8 as the runtime writes it, shape consistent with the image bytes):
+     * whatever the device does with the frame structure, the file must receive every byte of the
+     * packet (headers, pixels AND the alignment padding the size fields account for), in order */
+    fs_short_writes_enabled = 1;
+    fs_short_writes_max = 4; /* bound: at most 4 short (incl. zero-byte) results per append */
+    struct Raw* raw = containerof(dev, struct Raw, writer);
+    set_uri(0);
+    VASSERT(storage_set(dev, &props) == Device_Ok, "set failed for a writable path");
+    VASSERT(storage_start(dev) == Device_Ok, "start failed although open succeeds");
+    uint64_t off0 = ND(uint64_t);
+    VASSUME(off0 <= (((uint64_t)1) << 62));
+    raw->offset = off0;
+    int nf = ND(uint8_t);
+    VASSUME(nf >= 1 && nf <= FR_MAX);
+    size_t n = 0;
+    for (int i = 0; i < FR_MAX; ++i) {
+        size_t img = ND(uint8_t);
+        VASSUME(img <= FR_IMG);
+        if (i < nf) {
+            struct VideoFrame* f = (struct VideoFrame*)(packet + n);
+            f->bytes_of_frame = 8 * ((sizeof(struct VideoFrame) + img + 7) / 8);
+            f->frame_id = (uint64_t)i;
+            f->shape = (struct ImageShape){ .dims = { .channels = 1, .width = (uint32_t)img, .height = 1, .planes = 1 },
+                                            .strides = { .channels = 1, .width = 1, .height = (int64_t)img, .planes = (int64_t)img }, .type = SampleType_u8 };
+            n += f->bytes_of_frame;
+        }
+    }
+    obs_on = 1; obs_file = 0; obs_base = off0; obs_done = 0;
+    enum DeviceStatusCode rc = storage_append(dev, (struct VideoFrame*)packet, (struct VideoFrame*)(packet + n));
+    if (rc == Device_Ok) {
+        VASSERT(obs_done == n, "C14: append reported success but the file did not receive every byte of the packet (frames incl. their alignment padding)");
+        VASSERT(raw->offset == off0 + n, "C14: running offset not advanced by the packet size");
+        VASSERT(storage_get_state(dev) == DeviceState_Running, "state after a successful append");
+    } else {
+        VASSERT(storage_get_state(dev) != DeviceState_Running, "C16: append failed but device still Running");
+    }
+    VASSERT(fs_bad_fd_ops == 0, "C16: operation on a descriptor the device does not own");
+    COVER(rc == Device_Ok && nf == 2 && (n & 15) == 8);
+    COVER(rc != Device_Ok);
+    obs_on = 0;
+    storage_close(dev);
     WITNESS_END();
 #elif MODE == 142
     fs_short_writes_enabled = 0; /* short writes are the subject of MODE 141 */
